@@ -480,7 +480,9 @@ func genUniform(rt *rapid.T, maxLen int) []byte {
 }
 
 // hostileConstants: inputs built to claim far more than they contain.
-func hostileConstants() []struct {
+// The bombs are built from `big` repetitions (60000 in the thorough tier, fewer
+// in the quick tier; all far beyond every depth / element limit of the library).
+func hostileConstants(big int) []struct {
 	Name string
 	Data []byte
 } {
@@ -520,18 +522,18 @@ func hostileConstants() []struct {
 	blk2 = append(blk2, 0xa0, 0x80)
 	out = append(out, hc{"block-header-then-inflated-bodies", blk2})
 	out = append(out, hc{"nest-array-300", rep([]byte{0x81}, 300, []byte{0x00})})
-	out = append(out, hc{"nest-array-60000", rep([]byte{0x81}, 60000, []byte{0x00})})
-	out = append(out, hc{"nest-indef-array-60000-unterminated", rep([]byte{0x9f}, 60000, nil)})
-	out = append(out, hc{"nest-indef-map-30000", rep([]byte{0xbf, 0x00}, 30000, nil)})
-	out = append(out, hc{"nest-tag24-30000", rep([]byte{0xd8, 0x18}, 30000, []byte{0x40})})
-	out = append(out, hc{"nest-tag2-60000", rep([]byte{0xc2}, 60000, []byte{0x40})})
-	out = append(out, hc{"nest-map-20000", rep([]byte{0xa1, 0x00}, 20000, []byte{0x00})})
-	out = append(out, hc{"bignum-60000-bytes", append([]byte{0xc2, 0x59, 0xea, 0x60}, rep([]byte{0xff}, 60000, nil)...)})
-	out = append(out, hc{"neg-bignum-60000-bytes", append([]byte{0xc3, 0x59, 0xea, 0x60}, rep([]byte{0xff}, 60000, nil)...)})
-	out = append(out, hc{"many-empty-arrays-60000", append([]byte{0x9f}, rep([]byte{0x80}, 60000, []byte{0xff})...)})
-	out = append(out, hc{"many-empty-maps-in-array", append([]byte{0x99, 0xea, 0x60}, rep([]byte{0xa0}, 60000, nil)...)})
-	out = append(out, hc{"map-30000-dup-keys", append([]byte{0xb9, 0x75, 0x30}, rep([]byte{0x00, 0x00}, 30000, nil)...)})
-	out = append(out, hc{"indef-bytes-60000-chunks", append([]byte{0x5f}, rep([]byte{0x40}, 60000, []byte{0xff})...)})
+	out = append(out, hc{"nest-array-big", rep([]byte{0x81}, big, []byte{0x00})})
+	out = append(out, hc{"nest-indef-array-big-unterminated", rep([]byte{0x9f}, big, nil)})
+	out = append(out, hc{"nest-indef-map-big", rep([]byte{0xbf, 0x00}, big/2, nil)})
+	out = append(out, hc{"nest-tag24-big", rep([]byte{0xd8, 0x18}, big/2, []byte{0x40})})
+	out = append(out, hc{"nest-tag2-big", rep([]byte{0xc2}, big, []byte{0x40})})
+	out = append(out, hc{"nest-map-big", rep([]byte{0xa1, 0x00}, big/3, []byte{0x00})})
+	out = append(out, hc{"bignum-big-bytes", append([]byte{0xc2, 0x59, byte(big >> 8), byte(big)}, rep([]byte{0xff}, big, nil)...)})
+	out = append(out, hc{"neg-bignum-big-bytes", append([]byte{0xc3, 0x59, byte(big >> 8), byte(big)}, rep([]byte{0xff}, big, nil)...)})
+	out = append(out, hc{"many-empty-arrays-big", append([]byte{0x9f}, rep([]byte{0x80}, big, []byte{0xff})...)})
+	out = append(out, hc{"many-empty-maps-in-array", append([]byte{0x99, byte(big >> 8), byte(big)}, rep([]byte{0xa0}, big, nil)...)})
+	out = append(out, hc{"map-big-dup-keys", append([]byte{0xb9, byte(big / 2 >> 8), byte(big / 2)}, rep([]byte{0x00, 0x00}, big/2, nil)...)})
+	out = append(out, hc{"indef-bytes-big-chunks", append([]byte{0x5f}, rep([]byte{0x40}, big, []byte{0xff})...)})
 	out = append(out, hc{"tag24-of-inflated", append([]byte{0xd8, 0x18, 0x49}, head9(4, 1<<62)...)})
 	out = append(out, hc{"rat-zero-denominator", []byte{0xd8, 0x1e, 0x82, 0x01, 0x00}})
 	out = append(out, hc{"map-with-array-key", []byte{0xa1, 0x81, 0x00, 0x00}})
